@@ -41,6 +41,11 @@ def make_case(i, seed, tier):
     tree = confgen.gen_tree(rng, depth=rng.choice([1, 2, 3]), width=rng.choice([2, 3, 5]), binary=binary)
     if not tree:
         tree = [(b"a", ("str", b"b"))]
+    if i % 25 == 7:
+        # a long file: one section with 70-400 small objects (what a table of class rules or log entries looks like), some with lists
+        n_ = rng.choice([70, 130, 400])
+        tree = tree[:1] + [(b"table", ("obj", [(b"r%03d" % j, ("obj", [(b"class", ("str", b"c%d" % j))] + ([(b"l", ("list", [b"x", b"y"]))] if j % 7 == 0 else [])))
+                                               for j in range(n_)]))]
     feats = pick_features(rng)
     return tree, feats, rng.randint(0, 1 << 30)
 
